@@ -174,4 +174,35 @@ var props = map[string]Prop{
 			"let-binding names are not holes (renaming them changes scoping, i.e. structure)",
 		},
 	},
+	"C06": {
+		Stages: []Stage{
+			{Name: "bindings", Test: "TestC06Bindings", Shards: [2]int{6, 16}, Checks: [2]int{2500, 50000}, Timeout: [2]time.Duration{10 * min, 90 * min}},
+		},
+		Rule: "rapid-generated configurations: 0-3 parameters (names colliding with columns k/a1, with the constant true, with later let names; typed placeholder snippets; generated values) x 0-5 let statements (literal, signed, parenthesised-signed, compound, reference and compound-over-reference values; redefinition; shadowing of parameters; lets after the query) x a well-typed pipeline of 1-5 operators (joins included) in which one leaf in two is a binding of the right type, in every expression position (where, project, extend, summarize aggregate and key, sort, take/top counts, join conditions) and under every operator the typed grammar has (signs, all precedence levels, in-lists, iff); colliding non-uses: columns, aliases and `as` names spelled like a binding (then referenced in backticks), qualified $left./$right. names. Oracle: (1) the emitted SQL evaluated with placeholders bound to the generated values equals the reference interpreter with lexical scoping (a let value is computed once, in the scope of the lets and parameters before it; later lets shadow); (2) adding an unused let, an unused parameter and lets after the query leaves the SQL byte-identical; (3) a parameter's snippet occurs verbatim in the SQL iff the parameter reaches the query through substituted uses (directly or through a chain of lets). Non-trivial = at least one binding used in the query and at least one of: shadowing, redefinition, reference chain, signed or compound value, use in a join condition or row count, an alias or `as` name spelled like a binding; distinct = program shape.",
+		Assumptions: []string{
+			"as C02/C03; negative row counts are don't-care (skipped, counted)",
+			"a bare join key that is also a binding is not generated (C03 and C06 disagree on its meaning)",
+		},
+	},
+	"C14": {
+		Race: true,
+		Stages: []Stage{
+			{Name: "histories", Test: "TestC14Histories", Shards: [2]int{8, 16}, Checks: [2]int{40, 2000}, Timeout: [2]time.Duration{10 * min, 120 * min}},
+		},
+		Rule: "rapid-generated call histories of 5-40 calls over a pool of sources (lets that shadow a parameter of the shared map followed by calls that use that parameter, every built-in, an unknown join kind for the sorted error text, generated programs and their corruptions) mixing pql.Compile, nil / zero-value / empty-map / shared-map / private-map options, parser.Parse and parser.Scan. Each history runs sequentially in the test process (model: memo from call to result; equal calls must give equal results, nil = zero = empty options, the history repeated gives the same results, the shared map is unchanged) and once in a fresh child process built with -race whose first action is to run all calls from 2-16 goroutines released by a barrier on one shared options value: every concurrent result must equal the isolated one, the shared map must be unchanged, and the race detector must stay silent (exit status / DATA RACE report). A fresh child per history makes each one a first-use trial of the lazily initialised built-in table. Non-trivial = >= 4 goroutines, or a let that shadows a shared parameter followed by a later call using it; distinct = distinct histories.",
+		Assumptions: []string{
+			"schedules are sampled by the Go scheduler under the race detector, not enumerated: a race that needs a particular preemption point can escape, but unsynchronised accesses are reported whatever the outcome",
+		},
+	},
+	"C16": {
+		NeedCLI: true,
+		Stages: []Stage{
+			{Name: "scripts", Test: "TestC16Scripts", Shards: [2]int{8, 16}, Checks: [2]int{150, 4000}, Timeout: [2]time.Duration{10 * min, 90 * min}},
+		},
+		Rule: "rapid-generated scripts of 0-8 statements (valid queries that use or do not use earlier lets, valid lets incl. chains and redefinitions, failing lets (unbound name, syntax, quoted identifier, arity), invalid queries (parse and compile errors), empty statements) x line layouts (statements on one line or across lines with newlines, tabs and comments between tokens, blank lines and comments with semicolons between statements, final statement with or without `;` and final newline, CRLF line ends, one class with a 66-70 KB line) x transport (stdin, one file, 2-3 files cut at arbitrary byte positions, `-` among files) x sink (stdout, -o file); each script is also run with the final `;` toggled. Oracle: the built cmd/pql binary is run as a subprocess; expected standard output is the fold of the statement list with pql.Compile (a let is accepted iff it compiles with the accepted lets before it; a query contributes the library's SQL for accepted-lets + query followed by a blank line); stdout (or the -o file) must be byte-equal; exit status is non-zero iff some statement failed, stderr non-empty iff some statement failed; for the long-line class: complete correct processing, or non-zero exit with stdout a prefix of the expected output. Non-trivial = a query that uses an earlier let, or a failing statement followed by a succeeding one; distinct = statement-kind sequence x transport x sink x line-end style.",
+		Assumptions: []string{
+			"exit status and stderr are not asserted for scripts with empty statements between semicolons or an unterminated final let (only their effect on stdout is checked); error message text is never compared",
+			"statement texts are generated so that the semicolons written between them are the only semicolon tokens (C15 covers the splitter itself)",
+		},
+	},
 }
